@@ -142,6 +142,7 @@ def run(ctx):
     successor_construction(ctx, 'M3')
 
     # ---------------------------------------------------------------- M1
+    common.from_exception_total(ctx, esc, 'M1')
     preq = ctx.func('ikesa.IkeSa._process_request')
     g, hnodes = window(ctx, 'M1', preq, 'peer_msg_id', is_handler, 'last_sent_response_data')
     incs = [n for n in g.nodes if self_store(n, preq) == 'peer_msg_id']
